@@ -46,6 +46,13 @@ def static_desc(rng):
     # an explicit public.glyphOrder: without one the two UFO libraries report different orders for an
     # in-memory font (defcon: creation order, ufoLib2: none), which is a difference of source content
     desc["glyphOrder"] = sorted(names)
+    # vertical metrics with explicit vertical origins on exactly half of the glyphs (counting the generated .notdef):
+    # two origins are equally frequent, so VORG's default is decided by the order of counting (fixed finding F18)
+    desc["info"] = dict(desc.get("info", {}), openTypeVheaVertTypoAscender=500, openTypeVheaVertTypoDescender=-500,
+                        openTypeVheaVertTypoLineGap=0)
+    if (len(names) + 1) % 2 == 0:
+        for nm in rng.sample(names, (len(names) + 1) // 2):
+            next(g for g in desc["glyphs"] if g["name"] == nm).setdefault("lib", {})["public.verticalOrigin"] = 880
     return desc
 
 
